@@ -117,6 +117,7 @@ func runC29(c *Ctx) {
 	// check-then-act across a lock release is not a data race but breaks linearizability (shared with C05)
 	runC05Atomic(c, P)
 	runC29OwnListing(c, P)
+	runNilHolesAs(c, P, nil)
 }
 
 // runPoolFields: WorkerPool fields rewritten in Resize must be read under the same lock everywhere else.
